@@ -80,6 +80,18 @@ def eval_points(rng, breaks, greville=None, nrand=8):
         pts.append(("knot", x))
         pts.append(("ulp-off-knot", float(np.nextafter(x, a))))
         pts.append(("ulp-off-knot", float(np.nextafter(x, b))))
+    # a ladder of tiny distances on both sides of a few break points (a guard such as "offset > 1-1e-9 -> snap to the
+    # knot" is invisible one ulp away from the knot and at generic points)
+    inner = [float(x) for x in breaks[1:-1]]
+    picks = inner if len(inner) <= 3 else rng.sample(inner, 3)
+    for x in picks + [b]:
+        h = min(x - a, b - x) if a < x < b else (b - a)
+        h = min(h, float(np.min(np.diff(breaks))))
+        for d in (1e-13, 1e-11, 3e-10, 1e-8, 1e-6):
+            if x - d * h > a:
+                pts.append(("near-knot", x - d * h))
+            if x + d * h < b:
+                pts.append(("near-knot", x + d * h))
     if greville is not None:
         for x in greville:
             if a <= x <= b:
